@@ -7,7 +7,7 @@ CONSTANTS
   Types = {"bullet", "decimal", "lowerRoman"}
   Syms = {"dash", "dot"}
   NumSyms = {"empty"}
-  LvlCodes = {0, 1, 10}
+  LvlCodes = {1, 10}
   Starts = {1, 5}
   MLTypes = {"bullet", "decimal"}
   MLLvls = {0, 1}
